@@ -678,7 +678,7 @@ func (nm *NodeMachine) Apply(op NOp) error {
 			}
 		} else {
 			if err == nil {
-				return fmt.Errorf("PlayAndRepost(%s) succeeded although the block is not valid on its parent's state", m.Blocks[t].Label)
+				return fmt.Errorf("PlayAndRepost(%s) succeeded although the block is not valid on its parent's state (%s; %d transactions pending before the play: %s)", m.Blocks[t].Label, nm.WhyNot[t], len(oldPool), txList(oldPool))
 			}
 			nm.LastOutcome = "failed"
 			nm.Stat["play-failed"]++
